@@ -168,3 +168,57 @@ func VerifC10Dispatch() {
 		rt.Cover("not-entered")
 	}
 }
+
+// VerifC09StakingAtomic: share transfer through the real Run with a fault injected at the k-th
+// state-changing keeper call (k symbolic, 0 = no fault): every Cosmos-side mutation happens inside
+// ExecuteNativeAction; an injected failure is never swallowed (Run returns an error); after an
+// error the ledger is what it was before the call and no log remains; without a fault the whole
+// effect is committed together with its logs.
+func VerifC09StakingAtomic() {
+	e := verifNewStakingEnv(0)
+	e.k.stakingKeeper = verifSK{l: e.ledger}
+	e.k.distrMsgServer = verifDistrMsgs{l: e.ledger}
+	e.withRevert()
+	owner, spender, recipient := verifAcc[0], verifAcc[1], verifAcc[2]
+	sOwner := verifShares("shares.owner")
+	e.ledger.SetShares(owner.Bytes(), sOwner, 3)
+	if rt.Bool("recipientHasDelegation") {
+		e.ledger.SetShares(recipient.Bytes(), verifShares("shares.recipient"), 4)
+	}
+	xb := rt.BigInt("shares")
+	rt.Assume(rt.And(xb.Sign() > 0, xb.Cmp(new(big.Int).Lsh(big.NewInt(1), 60)) < 0))
+	e.ledger.SetAllowance(e.ctx, verifValAddr, owner.Bytes(), spender.Bytes(), new(big.Int).Lsh(big.NewInt(1), 70))
+	e.ledger.Guard = func() { rt.Assert(e.sdb.Depth > 0, "Cosmos state is changed only inside ExecuteNativeAction") }
+	e.ledger.FailAt = rt.Choose("failAtMutation", 8)
+	before := e.ledger.Snapshot()
+	var err error
+	if rt.Bool("transferFrom") {
+		m := NewTransferFromSharesMethod(e.k)
+		input, perr := m.PackInput(fxstakingtypes.TransferFromSharesArgs{Validator: verifValAddr.String(), From: owner, To: recipient, Shares: xb})
+		if perr != nil {
+			rt.Assert(false, "harness: cannot pack input")
+		}
+		_, err = m.Run(e.evm, verifFrame(spender, input))
+	} else {
+		m := NewTransferSharesMethod(e.k)
+		input, perr := m.PackInput(fxstakingtypes.TransferSharesArgs{Validator: verifValAddr.String(), To: recipient, Shares: xb})
+		if perr != nil {
+			rt.Assert(false, "harness: cannot pack input")
+		}
+		_, err = m.Run(e.evm, verifFrame(owner, input))
+	}
+	if e.ledger.Fired {
+		rt.Cover("fault-hit")
+		rt.Assert(err != nil, "a failing keeper call is never swallowed: the precompile call fails")
+	}
+	if err != nil {
+		rt.Cover("failed")
+		rt.Assert(e.ledger.SameAs(before), "after a failed call the staking state is exactly what it was")
+		rt.Assert(len(e.sdb.Logs) == 0, "a failed call leaves no log")
+	} else {
+		rt.Cover("committed")
+		rt.Assert(len(e.sdb.Logs) >= 2, "the committed call left its logs (withdraw + transfer)")
+		after, _ := e.ledger.Shares(owner.Bytes())
+		rt.Assert(after.Equal(sOwner.Sub(sdkmath.LegacyNewDecFromBigInt(xb))), "the committed call moved the shares")
+	}
+}
